@@ -27,7 +27,7 @@ ASSUMPTIONS = [
     "fingerprints are sha256 over the DER bytes the harness peer presents",
 ]
 
-HOSTS = ["h1", "h2", "h3", "0:0:0:0:0:0:0:1"]
+HOSTS = ["h1", "h2", "h3", "0:0:0:0:0:0:0:1", "h_1", "hx1"]
 
 
 def _auth(h, p):
@@ -53,6 +53,7 @@ def op_st():
         st.tuples(st.booleans(), st.sampled_from([None, True, False])).map(lambda t: {"op": "export-import", "merge": t[0], "cb": t[1]}),
         st.just({"op": "new-client"}),
         hp.map(lambda t: {"op": "get-tofu-off", "hp": list(t)}),
+        st.tuples(hp, st.sampled_from([1, 1, 1, 2, 3, 4]), st.sampled_from(["get", "upload"])).map(lambda t: {"op": "get-dbfault", "hp": list(t[0]), "n": t[1], "kind": t[2]}),
     )
 
 
@@ -69,14 +70,15 @@ def enum_small(tier):
     hs = [["h1", 1965], ["h2", 1965]]
     alphabet = []
     for hp in hs:
-        alphabet += [{"op": "get", "hp": hp}, {"op": "upload", "hp": hp}, {"op": "revoke", "hp": hp}]
+        alphabet += [{"op": "get", "hp": hp}, {"op": "upload", "hp": hp}, {"op": "revoke", "hp": hp},
+                     {"op": "get-dbfault", "hp": hp, "n": 1, "kind": "get"}]
         for k in ("ec-a", "ec-b", "hostile-bool"):
             alphabet.append({"op": "rotate", "hp": hp, "cert": k})
     alphabet.append({"op": "clear"})
     for n in range(1, L + 1):
         for seq in itertools.product(alphabet, repeat=n):
             # prune: histories without any fetch are uninteresting
-            if not any(o["op"] in ("get", "upload") for o in seq):
+            if not any(o["op"] in ("get", "upload", "get-dbfault") for o in seq):
                 continue
             yield {"initial": ["ec-a"] * (len(HOSTS) * len(PORTS)), "ops": list(seq)}
 
@@ -88,7 +90,7 @@ def _peers(net, state):
             line = req.split(b"\r\n", 1)[0]
             if b"/redir/" in line:
                 tgt = line.split(b"/redir/", 1)[1].split(b"?")[0].split(b";")[0].decode()
-                th, tp = tgt.split("_")
+                th, tp = tgt.split("~")
                 return f"30 gemini://{_auth(th, tp)}/final\r\n".encode()
             return f"20 text/gemini\r\nBODY-{h}-{p}".encode()
 
@@ -143,7 +145,7 @@ def run_history(case: dict):
             if kind == "get-upper":
                 url = f"gemini://{_auth(h.upper(), p)}/x"
             if kind == "get-redirect":
-                url = f"gemini://{_auth(h, p)}/redir/{to[0]}_{to[1]}"
+                url = f"gemini://{_auth(h, p)}/redir/{to[0]}~{to[1]}"
             if kind == "get-ca":
                 # CA validation switched on in addition to TOFU: the peers' certificates are the trust anchors
                 # (one anchor: the twins share a subject name, so a bundle with both makes path building ambiguous)
@@ -234,6 +236,32 @@ def run_history(case: dict):
                                         why="changed-on-later-hop")
                         if op["cert2"] in PARSABLE and (res[0] != "changed" or res[1] != model[hp] or res[2] != c2.fingerprint):
                             return viol("wrong-error-for-changed-certificate", f"{where}: {res}")
+            elif o == "get-dbfault":
+                # the trust store fails (sqlite OperationalError at the n-th statement) while the call is in progress
+                from props import c12
+
+                hp = tuple(op["hp"])
+                exp, fp, pin = expect_for(hp)
+                c12._patch()
+                c12._State.n, c12._State.kind, c12._State.count, c12._State.active = op["n"], "error", 0, True
+                try:
+                    res, log = await fetch(op["kind"], hp)
+                finally:
+                    c12._State.active = False
+                stats["fetches"] += 1
+                if exp in ("changed", "refuse-unreadable"):
+                    stats["mismatch_fetches" if exp == "changed" else "unparsable_fetches"] += 1
+                    if res[0] == "ok":
+                        return viol("changed-certificate-accepted" if exp == "changed" else "unreadable-certificate-accepted",
+                                    f"{where}: hop {hp} presented {state[hp]} ({fp[:20]}), pin {str(pin)[:20]}, the store failed at statement "
+                                    f"{op['n']}; call returned {res}", why=exp + "-with-store-fault")
+                # whether a first use got recorded depends on where the fault hit: adopt the store's view of this entry only
+                t_now = table()
+                if exp == "first-use" and t_now.get(hp) in (None, fp):
+                    if hp in t_now:
+                        model[hp] = fp
+                    else:
+                        model.pop(hp, None)
             elif o in ("get", "get-query", "get-upper", "get-ca", "upload", "delete", "get-redirect", "get-tofu-off"):
                 hp = tuple(op["hp"])
                 hops = [hp] + ([tuple(op["to"])] if o == "get-redirect" else [])
